@@ -345,6 +345,15 @@ PROPS['C14']['assumptions'] += _PCW2
 PROPS['C14']['claim'] += ' Unit pcw (Verus, real bodies): PointCloudWriter::new creates empty bounds exactly for the attribute groups present and default limits = declared range of the first Intensity / ColorRed,Green,Blue record types; add_point folds min/max over the records of the point for all 18 bound fields (frame over the structs), leaves them untouched when the point is rejected; write_buffer_to_disk never touches bounds/limits; finalize moves bounds and limits unchanged into the published descriptor.'
 PROPS['C01']['kani'] = ['bsw_k', 'bsr_k', 'bits_k']
 PROPS['C06']['verus'] = ['page_w', 'page_r', 'blob']
+TRUSTED_ALLOW['img'] = TRUSTED_ALLOW['blob'] | {'external_body:shim_clone_image'}
+UNIT_RLIMIT['img'] = 30
+PROPS['C06']['verus'] = ['page_w', 'page_r', 'blob', 'img']
+PROPS['C06']['claim'] += (' Image payloads (unit img, real bodies of ImageWriter::{add_visual_reference, add_pinhole, add_spherical, add_cylindrical, finalize} '
+    'over the extracted Blob::write): the descriptor stored as the image data of a representation is (physical start, length) of the section written from the '
+    'IMAGE source, the mask descriptor that of the section written from the MASK source right behind it (None exactly when no mask is given), format and '
+    'properties are stored as given, a second projection is refused before anything is written, and finalize publishes exactly the assembled image, once, '
+    'and only if it has a representation.')
+PROPS['C06']['assumptions'] = PROPS['C06']['assumptions'] + ['derive(Clone) of Image is structural (shim_clone_image); `image: &mut dyn Read` / `mask: Option<&mut dyn Read>` are the ghost-sequence Source model; the XML side of image descriptors (offset/length as text) is outside (C04)']
 PROPS['C02']['verus'] = ['page_w', 'fmt', 'blob', 'e57w', 'pcw']
 PROPS['C16']['verus'] = ['page_w', 'page_r', 'rd_top', 'blob', 'e57w', 'pcw']
 
